@@ -160,8 +160,37 @@ def _positions(tokens):
     return out
 
 
+def setter_tie(ctx: common.Ctx):
+    """Tie (ast, fail closed): every value / raw_text / indent setter of the token classes writes its text
+    through Token._update_raw_text (the function Store.set_text models) and never assigns _raw_text directly."""
+    import ast
+    files = ['autobean_refactor/models/internal/base_token_models.py', 'autobean_refactor/models/block_comment.py',
+             'autobean_refactor/token_store.py']
+    for rel in files:
+        path = common.REPO / rel
+        try:
+            tree = ast.parse(path.read_text())
+        except Exception as e:
+            ctx.fail('tie', 'setter-tie', f'cannot parse {rel}: {e}')
+            continue
+        for cls in [n for n in ast.walk(tree) if isinstance(n, ast.ClassDef)]:
+            for fn in [n for n in cls.body if isinstance(n, ast.FunctionDef)]:
+                is_setter = any(isinstance(d, ast.Attribute) and d.attr == 'setter' for d in fn.decorator_list)
+                writes_raw = [n for n in ast.walk(fn) if isinstance(n, ast.Assign) and any(
+                    isinstance(t, ast.Attribute) and t.attr == '_raw_text' for t in n.targets)]
+                calls_update = any(isinstance(n, ast.Call) and isinstance(n.func, ast.Attribute) and n.func.attr == '_update_raw_text'
+                                   for n in ast.walk(fn))
+                if writes_raw and fn.name not in ('__init__', '_update_raw_text'):
+                    ctx.fail('tie', 'setter-tie', f'{rel}: {cls.name}.{fn.name} assigns _raw_text directly (bypasses the size caches the '
+                                                  f'store theorems are about)')
+                if is_setter and fn.name in ('value', 'indent', 'raw_text') and not calls_update:
+                    ctx.fail('tie', 'setter-tie', f'{rel}: setter {cls.name}.{fn.name} does not go through _update_raw_text')
+    ctx.count('setter_tie_checked')
+
+
 def run_documents(ctx: common.Ctx, prop_sigs, n_quick: int = 25, n_thorough: int = 250):
     from harness import gen_docs
+    setter_tie(ctx)
     sd.set_load_factor(ctx.rng.choice([4, 10, 1000]))
     for _ in range(ctx.scale(n_quick, n_thorough)):
         lf = ctx.rng.choice([3, 8, 1000])
@@ -251,6 +280,10 @@ def run_documents(ctx: common.Ctx, prop_sigs, n_quick: int = 25, n_thorough: int
                 exp = _positions(after)
                 bad = None
                 for k, t in enumerate(after):
+                    x = t.raw_text
+                    if (t.size.line, t.size.column) != (x.count('\n'), len(x) - x.rfind('\n') - 1):
+                        bad = f'token {k} ({t.RULE}) has cached size {(t.size.line, t.size.column)} for text {x!r} after {attr} assignment on token {i}'
+                        break
                     p = store.get_position(t)
                     if (p.line, p.column) != exp[k]:
                         bad = f'get_position(token {k}) = {(p.line, p.column)}, text says {exp[k]} after {attr} assignment on token {i} ({tok.RULE})'
